@@ -188,6 +188,30 @@ class Vals:
         pd.fresh = False
         return self._mk("ValueObject", {"value": pd, "isModule": is_module}, name)
 
+    def set_sym(self, it, name="st"):
+        """a set of arbitrary (finite) content, elements are opaque ids modulo the language's equality"""
+        ps = PSet([], label=name)
+        ps.sym_dom = z3.Array(name, z3.IntSort(), z3.BoolSort())
+        ps.fresh = False
+        return self._mk("ValueSet", {"value": ps}, name)
+
+    def map_sym(self, it, name="m", keys="elem"):
+        pd = PDict([], label=name)
+        ks = z3.StringSort() if keys == "str" else z3.IntSort()
+        pd.sym_dom = z3.Array(name + ".dom", ks, z3.BoolSort())
+        pd.sym_val = z3.Array(name + ".val", ks, z3.IntSort())
+        pd.key_kind = keys
+        pd.fresh = False
+        return self._mk("ValueMap", {"value": pd}, name)
+
+    def object_sym(self, it, name="o"):
+        pd = PDict([], label=name)
+        pd.sym_dom = z3.Array(name + ".dom", z3.StringSort(), z3.BoolSort())
+        pd.sym_val = z3.Array(name + ".val", z3.StringSort(), z3.IntSort())
+        pd.key_kind = "str"
+        pd.fresh = False
+        return self._mk("ValueObject", {"value": pd, "isModule": SBool(z3.Bool(name + ".isModule"))}, name)
+
     def func(self, it, name="f"):
         return self._mk("ValueFunc", {"name": name, "secure": True}, name)
 
@@ -242,11 +266,11 @@ class Vals:
         if kind == "list":
             return self.list_sym(it, name)
         if kind == "set":
-            return self.set_of(it, [], name)
+            return self.set_sym(it, name)
         if kind == "map":
-            return self.map_of(it, [], name)
+            return self.map_sym(it, name)
         if kind == "object":
-            return self.object_of(it, [], name)
+            return self.object_sym(it, name)
         if kind == "func":
             return self.func(it, name)
         if kind == "input":
@@ -330,3 +354,39 @@ def runtime_error(world, it, value=None, name="err"):
 
 def events(it, kind="eval"):
     return [e[1] for e in it.trace if e[0] == kind]
+
+
+class StubFuncs:
+    """Abstract callee functions (user callbacks): `execute` logs an event and returns what `behaviour` says."""
+
+    def __init__(self, world):
+        from pyvc.values import PyClass, Builtin
+        self.w = world
+        base = world.import_module("ckl.values").ns["ValueFunc"]
+        self.cls = PyClass("StubFunc", None, [base])
+        self.cls.methods["execute"] = Builtin("StubFunc.execute", self._execute)
+        self.cls.methods["getArgNames"] = Builtin("StubFunc.getArgNames", lambda it, a, k, n: PList(list(a[0].fields["argnames"])))
+
+    def func(self, name, argnames, behaviour):
+        o = Obj(self.cls, {"name": name, "secure": True, "argnames": list(argnames), "behaviour": behaviour, "info": ""}, label=name)
+        o.fresh = False
+        return o
+
+    def _execute(self, it, a, k, n):
+        f, args = a[0], a[1]
+        vals = [e[1] for e in args.fields["args"].entries]
+        it.trace.append(("exec", f.fields["name"], tuple(vals)))
+        return f.fields["behaviour"](it, vals)
+
+
+def real_env(world, it, bindings=None, parent=None):
+    """an instance of the repository's Environment class holding the given bindings"""
+    E = world.import_module("ckl.functions").ns["Environment"]
+    pd = PDict([[k, v] for k, v in (bindings or {}).items()])
+    o = Obj(E, {"map": pd, "parent": parent}, label="env")
+    if parent is None:
+        o.fields["modules"] = PDict([])
+        o.fields["modulestack"] = PList([])
+    o.fresh = False
+    pd.fresh = False
+    return o
